@@ -388,7 +388,44 @@ def boolt(draw, depth, names):
         return ("and", draw(boolt(d, names)), draw(boolt(d, names)))
     if k == 8:
         return ("or", draw(boolt(d, names)), draw(boolt(d, names)))
-    return ("not", draw(boolt(d, names)))
+    j = draw(st.integers(0, 3))
+    if j == 0:
+        return ("not", draw(boolt(d, names)))
+    if j == 3:
+        return ("bite", draw(boolt(d, names)), draw(boolt(d, names)), draw(boolt(d, names)))
+    # equality / disequality BETWEEN truth values (two maybe-results are not thereby equal)
+    return ("beq" if j == 1 else "bne", draw(boolt(d, names)), draw(boolt(d, names)))
+
+
+@st.composite
+def same_var_relation(draw, names):
+    """A comparison whose two sides are different functions of the SAME variable (abstract values derived from one variable keep
+    its identity; "same identity" must not be read as "same value")."""
+    w = draw(st.sampled_from(sorted(names)))
+    v = draw(st.sampled_from(names[w]))
+
+    def wrap():
+        k = draw(st.integers(0, 7))
+        if k == 0:
+            return v
+        if k == 1:
+            return ("bvadd", v, _c(draw(st.integers(0, (1 << w) - 1)), w))
+        if k == 2:
+            return (draw(st.sampled_from(("bvnot", "bvneg"))), v)
+        if k == 3:
+            return ("bvand", v, _c(draw(st.integers(0, (1 << w) - 1)), w))
+        if k == 4:
+            return (draw(st.sampled_from(("bvshl", "bvlshr", "bvashr"))), v, _c(draw(st.integers(0, w)), w))
+        return None  # extension, decided jointly below
+
+    a, b = wrap(), wrap()
+    if a is None or b is None:
+        m = draw(st.integers(1, 4))
+        ext = lambda: (draw(st.sampled_from(("zext", "sext"))), m, v)  # noqa: E731
+        a, b = ext(), ext()
+        if draw(st.integers(0, 3)) == 0:
+            b = ("concat", _c(draw(st.sampled_from((0, (1 << m) - 1))), m), v)
+    return (draw(st.sampled_from(ir.BV_CMP)), a, b)
 
 
 @st.composite
@@ -425,7 +462,7 @@ def gen_case(draw):
         op = draw(st.sampled_from(("bvadd", "bvsub", "bvand", "bvor", "bvxor", "bvmul", "ult", "sle", "eq", "ne", "uge")))
         tree = (op, i1, i2)
     elif k < 3:
-        tree = draw(boolt(3, names))
+        tree = draw(boolt(3, names)) if draw(st.integers(0, 2)) else draw(same_var_relation(names))
     elif k < 9:
         tree = draw(bv(root_w, draw(st.integers(1, 3)), names))
         if tree[0] in ("var", "const", "anno"):
